@@ -341,3 +341,30 @@ Proof.
   rewrite map_class_filter_nonid; [reflexivity|].
   rewrite (translation_keys _ m Em). exact Hnd.
 Qed.
+
+(* classes that are not listed keep their name, on both sides *)
+Lemma mapping_name_unlisted T c : acyclic T -> ~ In c (keys T) -> mapping_name T c = Ok c.
+Proof.
+  intros Ha Hc. unfold mapping_name. destruct (translation_total T Ha) as (m & Em). rewrite Em.
+  unfold map_class. destruct (alookup m c) as [v|] eqn:E; [|reflexivity].
+  exfalso. apply Hc. rewrite <- (translation_keys T m Em). apply alookup_some in E.
+  change c with (fst (c, v)). apply in_map. exact E.
+Qed.
+
+Lemma acyclic_sub T F : NoDup (keys T) -> incl F T -> NoDup (keys F) -> acyclic T -> acyclic F.
+Proof.
+  intros HndT Hincl HndF Ha.
+  (* a chain in F follows the same enclosing classes as in T, but may leave earlier *)
+  assert (Hstep : forall c n, find_nest F c = Some n -> find_nest T c = Some n).
+  { intros c n Hf. apply find_nest_some in Hf. destruct Hf as [Hin <-]. apply find_nest_in; auto. }
+  assert (Hall : forall l c, chain T c l -> exists l', chain F c l').
+  { induction l as [|x l IH]; intros c Hl.
+    - inversion Hl; subst. exists []. constructor.
+      destruct (find_nest F c) as [n|] eqn:Ef; [|reflexivity]. apply Hstep in Ef. congruence.
+    - inversion Hl as [|? n ? Hf Hc]; subst.
+      destruct (find_nest F x) as [n'|] eqn:Ef.
+      + pose proof (Hstep _ _ Ef) as Ht. rewrite Hf in Ht. injection Ht as <-.
+        destruct (IH _ Hc) as (l' & Hl'). exists (x :: l'). econstructor; eauto.
+      + exists []. constructor. exact Ef. }
+  intros c. destruct (Ha c) as (l & Hl). eapply Hall; eauto.
+Qed.
